@@ -251,6 +251,8 @@ static Res execute(Ctx &ctx, const Work &w, long k, long k2, long &ncalls)
 	}
 	case W_ARR: {
 		json_object *arr = build(w.tree);
+		if (w.flags >= 3)
+			json_object_array_shrink(arr, 0); // capacity == length, as in every parsed array: even an overwrite may reallocate
 		std::string before = canon(arr);
 		json_object *val = build(w.tree2);
 		arm();
@@ -761,8 +763,11 @@ void run_case(Choices &c, Ctx &ctx)
 		w.tree = Val::arr();
 		for (size_t i = 0; i < n; i++)
 			w.tree.a.push_back(Val::i64((int64_t)i));
-		w.flags = (int)c.pickn(3);
-		w.n = c.coin(50) ? n : c.coin(50) ? (n ? c.pickn(n) : 0) : n + c.range(1, 70);
+		w.flags = (int)c.pickn(3) + (c.coin(40) ? 3 : 0);
+		w.n = c.coin(40) ? n : c.coin(30) ? (n ? n - 1 : 0) : c.coin(50) ? (n ? c.pickn(n) : 0) : n + c.range(1, 70);
+		if (c.coin(30))
+			for (auto &e : w.tree.a)
+				e = Val::str("element " + show(e, 10)); // elements with storage of their own
 		w.tree2 = some_tree(c, 3, false);
 		break;
 	}
